@@ -7,6 +7,42 @@ from rustscan import code_mask, top_level_blocks, AnchorLost
 
 QUICK = ["SimplestStructWithOpt", "SimplestStructWithArg", "SimplestStructWithOptArg", "SimpleStructWithAliases", "SimplStructWithBool"]
 
+def acceptance(name, item):
+    """Acceptance clauses derived mechanically from the struct declaration, for single-field structs whose
+    whole grammar fits the harness bound (<= 2 arguments of <= 3 bytes): a boolean flag with a short alias, a
+    required positional i32, an optional positional i32.  Anything else gets the never-panics claim only."""
+    body = item[item.index("{") + 1:item.rindex("}")]
+    fields = re.findall(r"((?:#\[[^\]]*\]\s*)*)(\w+)\s*:\s*([^,\n]+),", body)
+    if len(fields) != 1:
+        return []
+    attrs, fname, ftype = fields[0][0], fields[0][1], fields[0][2].strip()
+    short = re.search(r'short\s*=\s*"(\w)"', attrs)
+    long_ = re.search(r'long\s*=\s*"([\w-]+)"', attrs)
+    out = []
+    if ftype == "bool" and short and not long_:
+        flag = "-" + short.group(1)
+        out += [
+            "    // grammar of this struct: [%s]" % flag,
+            "    let is_flag = |a: &UnixStr| a.as_slice() == b\"%s\\0\";" % flag,
+            "    if n == 0 { assert!(matches!(&r, Ok(v) if !v.%s), \"empty_line_accepted_with_flag_unset\"); }" % fname,
+            "    if n == 1 && is_flag(args[0]) { assert!(matches!(&r, Ok(v) if v.%s), \"declared_flag_accepted_and_set\"); }" % fname,
+            "    if n == 1 && !is_flag(args[0]) { assert!(r.is_err(), \"undeclared_argument_rejected\"); }",
+            "    if n == 2 && !(is_flag(args[0]) && is_flag(args[1])) { assert!(r.is_err(), \"undeclared_argument_rejected\"); }",
+        ]
+    elif ftype in ("i32", "Option<i32>") and not short and not long_:
+        opt = ftype.startswith("Option")
+        out += [
+            "    // grammar of this struct: %s<i32>%s" % ("[" if opt else "", "]" if opt else ""),
+            "    if n == 0 { assert!(%s, \"%s\"); }" % (("matches!(&r, Ok(v) if v.%s.is_none())" % fname, "empty_line_accepted_with_none") if opt
+                                                          else ("r.is_err()", "missing_required_value_rejected")),
+            "    if n == 1 { match small_i32(args[0].as_slice()) {",
+            "        Some(x) => assert!(matches!(&r, Ok(v) if v.%s == %s), \"rendered_value_parses_back\")," % (fname, "Some(x)" if opt else "x"),
+            "        None => assert!(r.is_err(), \"malformed_value_rejected\"),",
+            "    } }",
+        ]
+    return out
+
+
 def generate(repo):
     path = os.path.join(repo, "tiny-cli/tests/derive_test.rs")
     src = open(path).read()
@@ -22,6 +58,11 @@ def generate(repo):
                 names.append(m.group(2))
     if len(items) < 10:
         raise AnchorLost("derive_test.rs: only %d derived items found" % len(items))
+    items_by_name = {}
+    for it in items:
+        mm = re.search(r"\b(?:struct|enum)\s+(\w+)", it)
+        if mm:
+            items_by_name[mm.group(1)] = it
     derived = "// copied mechanically from tiny-cli/tests/derive_test.rs — do not edit\n" + "\n\n".join(items) + "\n"
     h = ["// generated — one never-panics harness per derived parser"]
     for n in names:
@@ -33,10 +74,11 @@ def generate(repo):
         h.append("    let a1 = any_arg(unsafe { &mut SLOT1 });")
         h.append("    let n: usize = kani::any(); kani::assume(n <= 2);")
         h.append("    let args = [a0, a1];")
-        h.append("    let mut it = args.into_iter().take(n);")
+        h.append("    let mut it = args.clone().into_iter().take(n);")
         h.append("    // must return Ok or Err — never panic, index out of range or overflow — for arbitrary bytes")
         h.append("    let r = <%s as ArgParse>::arg_parse(&mut it);" % n)
         h.append("    kani::cover!(r.is_err(), \"some argument list is rejected\");")
+        h.extend(acceptance(n, items_by_name.get(n, "")))
         h.append("}")
     return ({"src/derived.rs": derived, "src/derived_harnesses.rs": "\n".join(h) + "\n"},
             {"derived_items_copied": len(items), "parsers_with_a_harness": names}, [])
